@@ -338,6 +338,9 @@ func (c *MapCode) ToOpcode(ctx *compileContext) Opcodes {
 	ctx.incIndex()
 
 	keyCodes := c.key.ToOpcode(ctx)
+	for _, code := range keyCodes {
+		code.Flags |= MapKeyFlags
+	}
 
 	value := newMapValueCode(ctx, c.typ.Elem(), header)
 	ctx.incIndex()
